@@ -19,6 +19,7 @@ ASSUMPTIONS = [
     "the output is read from the -o file (the property's observation point); running without -o is not part of the statement",
     "the position of the ps/ht fields among the optional fields is not constrained; the other fields must keep their order and bytes",
     "ps:Z must contain the contig and the phase set of the TSV for a phased read",
+    "a read name that carries a comment after a blank may come out cut at that blank (documented behaviour of the GAF parser); the haplotag table lists the bare id",
 ]
 LEVEL_TEXT = (
     "The subcommand has no test at all. Every record shape x TSV state combination up to the bound is run through the real command and "
@@ -51,7 +52,10 @@ def alphabet():
         for strand in "+-":
             for pi, (path, plen, ps, pe) in enumerate(PATHS):
                 for oi in (range(len(OPTS)) if pi == 0 else (pi % len(OPTS), (pi + 2) % len(OPTS))):
-                    out.append(rgfa.Rec(read, 20, 3, 13, strand, path, plen, ps, pe, 9, 10, 60, OPTS[oi]))
+                    # on '-' strand records the name column carries a comment after a blank (GraphAligner style); the
+                    # haplotag table lists the bare read id
+                    name = read + (" runid=ab12 ch=7" if strand == "-" else "")
+                    out.append(rgfa.Rec(name, 20, 3, 13, strand, path, plen, ps, pe, 9, 10, 60, OPTS[oi]))
     return out
 
 
@@ -130,9 +134,12 @@ def judge(res, scratch, recs, states, header, large=False):
         if len(f) < 12:
             res.fail("C20/short-line", f"output line has {len(f)} columns: {line!r}", case)
             continue
-        if f[:12] != rin.cols():
-            diff = [i + 1 for i in range(12) if f[i] != rin.cols()[i]]
-            res.fail("C20/mandatory-columns:" + "+".join(map(str, diff)), f"columns {diff} changed: {rin.cols()} -> {f[:12]}", case)
+        want_cols = rin.cols()
+        if f[0] == want_cols[0].split(" ")[0]:
+            want_cols = [f[0]] + want_cols[1:]  # gaftools documents that a read name is cut at its first blank
+        if f[:12] != want_cols:
+            diff = [i + 1 for i in range(12) if f[i] != want_cols[i]]
+            res.fail("C20/mandatory-columns:" + "+".join(map(str, diff)), f"columns {diff} changed: {want_cols} -> {f[:12]}", case)
         opt = f[12:]
         bad = [x for x in opt if not well_formed_field(x)]
         if bad:
@@ -164,10 +171,10 @@ def judge(res, scratch, recs, states, header, large=False):
                 continue
         if rest != rin.opt:
             res.fail("C20/optional-fields-changed", f"optional fields {rin.opt} came out as {rest}", case)
-        exp = expected_phase(rin.qname, states)
+        exp = expected_phase(rin.qname.split(" ")[0], states)
         if exp is None:
             if ps[0] != "ps:Z:none" or ht[0] != "ht:Z:none":
-                res.fail("C20/unphased-not-none", f"read {rin.qname} is {states} in the TSV but got {ps[0]} {ht[0]}", case)
+                res.fail("C20/unphased-not-none", f"read {rin.qname!r} is {states} in the TSV but got {ps[0]} {ht[0]}", case)
         else:
             hap, ctg, pset = exp
             if ht[0] != f"ht:Z:{hap}" or ctg not in ps[0][5:] or pset not in ps[0][5:]:
